@@ -495,6 +495,73 @@ func clipS(s string) string {
 	return s
 }
 
+// lateReceive: the client (manual flushing on or off) half-closes, the handler fails, and the client
+// asks for the outcome only later: when the stream has finished and the next call on the connection
+// has already been started (its invoke sits unflushed in the shared writer). The first call's receive
+// must still report exactly the handler's message and code.
+func lateReceive(id string, seed uint64) runner.Result {
+	r := &payload.SplitMix{S: seed}
+	manual := r.Intn(4) != 0
+	cfg := prog.GenConfig(r, manual)
+	mux := drpcmux.New()
+	p := &plan{}
+	if err := mux.Register(&srv{p: p}, desc{}); err != nil {
+		return runner.Violation(id, "register", "Register failed: "+err.Error())
+	}
+	rg := rig.New(rig.Config{Net: cfg.Net, Client: cfg.Client, Server: cfg.Server}, mux)
+	defer rg.Teardown()
+	var attached uint64
+	var what string
+	p.k = 0
+	p.fail, what, attached = buildError(r)
+	wantText := p.fail.Error()
+	shape := 1 + r.Intn(3)
+	rpc := "/svc/" + shapeNames[shape]
+	ctx := context.Background()
+	st, err := rg.Conn.NewStream(ctx, rpc, enc{})
+	if err != nil {
+		return runner.Inconcl(id, "NewStream: "+err.Error())
+	}
+	if shape == 2 {
+		st.MsgSend(&Msg{B: []byte("req")}, enc{})
+	}
+	st.CloseSend()
+	census.Quiesce(rig.Watchdog) // the handler's error has arrived and the stream has finished
+	st2, err2 := rg.Conn.NewStream(ctx, "/svc/Bidi", enc{})
+	desc := fmt.Sprintf("%s | late-receive %s %s manual=%v: half-close, handler error arrives, next call started (err=%v), only then the receive", cfg.Desc, rpc, what, manual, err2)
+	op := rig.Go("late-recv", func() (interface{}, error) {
+		var m Msg
+		return nil, st.MsgRecv(&m, enc{})
+	})
+	if !op.Wait() {
+		return runner.Violation(id, "error-identity:late-receive-never-returns", desc)
+	}
+	if st2 != nil {
+		st2.Close()
+	}
+	st.Close()
+	if rig.IsClosed(rg.Conn.Closed()) {
+		return runner.Hold(id, desc+" (connection closed)", false)
+	}
+	var fails []string
+	if op.Err == nil {
+		fails = append(fails, "the receive returned nil although the handler failed")
+	} else {
+		if got := op.Err.Error(); got != wantText {
+			fails = append(fails, fmt.Sprintf("the receive reported %q, want the handler's message %q", clipS(got), clipS(wantText)))
+		}
+		if got := drpcerr.Code(op.Err); got != attached {
+			fails = append(fails, fmt.Sprintf("the receive reported code %d, want %d", got, attached))
+		}
+	}
+	if len(fails) > 0 {
+		return runner.Violation(id, "error-identity:late-receive", desc+"\n"+strings.Join(fails, "\n"))
+	}
+	res := runner.Hold(id, desc, true)
+	res.Events = 2
+	return res
+}
+
 func gen(tier string, seed uint64) []runner.Scenario {
 	n := 250
 	if tier == "thorough" {
@@ -506,6 +573,10 @@ func gen(tier string, seed uint64) []runner.Scenario {
 		i := i
 		id := fmt.Sprintf("calls/%d", i)
 		out = append(out, runner.Scenario{ID: id, Run: func() runner.Result { return scenario(id, payload.Hash(seed, 0xC10, uint64(i))) }})
+		if i%5 == 0 {
+			id2 := fmt.Sprintf("late-receive/%d", i)
+			out = append(out, runner.Scenario{ID: id2, Run: func() runner.Result { return lateReceive(id2, payload.Hash(seed, 0xC10A, uint64(i))) }})
+		}
 	}
 	return out
 }
